@@ -16,6 +16,7 @@ import (
 	"runtime/debug"
 	"sort"
 	"sync"
+	"syscall"
 	"time"
 )
 
@@ -75,21 +76,54 @@ func readJSON(path string, v any) {
 	}
 }
 
-// deadline runs one case; a case that does not return within d is reported as a Timeout event (no specification has an
-// action for it) and ends the process with exit code 3: a goroutine that spins cannot be stopped any other way.
+// deadline runs one case.  A case that does not return is reported as a Timeout event (no specification has an action for
+// it) and ends the process with exit code 3: a goroutine that spins cannot be stopped any other way.  "Does not return" is
+// decided on the CPU the process has consumed, not on wall-clock time, so that a loaded machine cannot turn a slow case into
+// an alarm: the case is given up when it has burnt 4 x d of CPU time (it spins), or when the process has consumed next to no
+// CPU during a whole window of 3 x d wall-clock seconds (it is blocked).
 func deadline(out *Out, d time.Duration, fn func()) {
 	done := make(chan struct{})
 	go func() {
 		defer close(done)
 		fn()
 	}()
-	select {
-	case <-done:
-	case <-time.After(d):
-		out.Ev("Timeout", "after_s", int(d.Seconds()))
-		out.Close()
-		os.Exit(3)
+	cpuBudget := 4 * d
+	idleWindow := 3 * d
+	startCPU := cpuNow()
+	winStart, winCPU := time.Now(), startCPU
+	tick := time.NewTicker(250 * time.Millisecond)
+	defer tick.Stop()
+	for {
+		select {
+		case <-done:
+			return
+		case <-tick.C:
+			now, cpu := time.Now(), cpuNow()
+			why := ""
+			if cpu-startCPU > cpuBudget {
+				why = "spins"
+			} else if now.Sub(winStart) >= idleWindow {
+				if cpu-winCPU < 300*time.Millisecond {
+					why = "blocked"
+				}
+				winStart, winCPU = now, cpu
+			}
+			if why != "" {
+				out.Ev("Timeout", "after_s", int((cpu - startCPU).Seconds()), "why", why)
+				out.Close()
+				os.Exit(3)
+			}
+		}
 	}
+}
+
+// CPU time (user + system) consumed by this process so far
+func cpuNow() time.Duration {
+	var ru syscall.Rusage
+	if err := syscall.Getrusage(syscall.RUSAGE_SELF, &ru); err != nil {
+		return 0
+	}
+	return time.Duration(ru.Utime.Nano() + ru.Stime.Nano())
 }
 
 const caseDeadline = 40 * time.Second
